@@ -859,7 +859,13 @@ func writeEvidence(pl *plan, m *merged, exit int, notes []string) {
 		"repo":        repoDir,
 	}
 	b, _ := json.MarshalIndent(ev, "", " ")
-	_ = os.WriteFile(filepath.Join(verifDir, "evidence", pl.ID+".json"), append(b, '\n'), 0o644)
+	evDir := filepath.Join(verifDir, "evidence")
+	if repoDir != "/repo" {
+		// a run against a scratch copy (seeded change, fix candidate) is not evidence about /repo
+		evDir = filepath.Join(buildDir, "evidence-scratch")
+		os.MkdirAll(evDir, 0o755)
+	}
+	_ = os.WriteFile(filepath.Join(evDir, pl.ID+".json"), append(b, '\n'), 0o644)
 }
 
 // ---------------------------------------------------------------------------------------
